@@ -239,7 +239,7 @@ def units():
                         obligations=[Obl(f"C12/apply/{kind}", _apply_entity_post(kind), when="any")]))
     RS = "stabilize.events.recorder.stage_events:StageEventsMixin."
     RT = "stabilize.events.recorder.task_events:TaskEventsMixin."
-    rec_params = dict(names=STATUS_NAMES, registry=_recorder_registry(), replayable=False)
+    rec_params = dict(names=STATUS_NAMES, registry=_recorder_registry(), replayable=False, all_params=True)
     out.append(Unit(prop="*", name="L3/recorder.record_stage_completed", func=RS + "record_stage_completed", self_type=("obj", "EventRecorder"),
                     params=[("stage", ("obj", "StageExecution"))], obligations=[Obl("C12/recorder/stage_completed", _recorded_status("STAGE_COMPLETED", "stage"), when="any")], **rec_params))
     out.append(Unit(prop="*", name="L3/recorder.record_stage_failed", func=RS + "record_stage_failed", self_type=("obj", "EventRecorder"),
